@@ -351,6 +351,21 @@ def bounds(tier, seed):
             'abandoned after 0..rows-1 items'}
 
 
+def vacuity(cov, tier):
+    c = cov['per_case_counters']
+    problems = []
+    for op in TEE:
+        for kind in KINDS:
+            if not c.get('op:%s %s' % (op, kind)):
+                problems.append('no case for %s on %s' % (op, kind))
+    for op in ('progress', 'log_progress', 'clock', 'wrap', 'cache'):
+        if not c.get('op:' + op):
+            problems.append('no case for ' + op)
+    if c.get('excluded:to* raises', 0) * 10 > cov['states']:
+        problems.append('to* raised on more than a tenth of the tee states')
+    return problems
+
+
 def _slices(n, size):
     return [(lo, min(n, lo + size)) for lo in range(0, n, size)]
 
